@@ -79,7 +79,7 @@ Proof.
     destruct (Z.eqb_spec n 7), (Z.ltb_spec n 7); try lia; try reflexivity.
 Qed.
 
-Lemma p4_byte_known q x L probe : qof L = q -> 0 <= L <= 57 -> 0 <= probe ->
+Lemma p4_byte_known q x L probe : qof L = q -> 0 <= L <= 63 -> 0 <= probe ->
   p4_byte (known q x) L probe = p4_byte x L probe.
 Proof.
   intros Hq HL Hp. unfold qof in Hq.
@@ -188,7 +188,7 @@ Qed.
 (* reconstruct_exact for LimP4: for EVERY 64-bit h, every L <= 57, every displacement, every slot:
    either the full getter's value is returned, or exactly the known bits of h *)
 Theorem p4_reconstruct H s full bidx L newL items idx h probe :
-  0 <= idx -> idx < H <= 8 -> 0 <= h < 2 ^ 64 -> 0 <= L <= 57 -> 0 <= newL <= 63 -> 0 <= probe ->
+  0 <= idx -> idx < H <= 8 -> 0 <= h < 2 ^ 64 -> 0 <= L <= 63 -> 0 <= newL <= 63 -> 0 <= probe ->
   s (H - 1 - idx) = p4_byte h L probe -> s idx = Gen_P4.pvCalcShortHash h ->
   bidx = (h mod 2 ^ L + probe) mod 2 ^ L ->
   Gen_P4.GetHashCodePart H s full bidx L newL items idx =
@@ -205,9 +205,9 @@ Proof.
     destruct (Z.ltb_spec probe (2 ^ ((L + 6) mod 8))); [lia|reflexivity]. }
   cbv zeta. rewrite p4_byte_low_probe by lia.
   assert (0 < 2 ^ L) by (apply pow2_pos; lia).
-  assert (2 ^ L <= 2 ^ 57) by (apply pow2_le_mono; lia).
+  assert (2 ^ L <= 2 ^ 63) by (apply pow2_le_mono; lia).
   assert (0 <= bidx < 2 ^ L) by (subst bidx; apply Z.mod_pos_bound; lia).
-  rewrite (wrapU_small 64 (bidx + 2 ^ L)) by (change (2 ^ 64) with (128 * 2 ^ 57); lia).
+  rewrite (wrapU_small 64 (bidx + 2 ^ L)) by (change (2 ^ 64) with (2 * 2 ^ 63); lia).
   rewrite land_wrap64_ones by lia. rewrite Hb. rewrite unprobe_mod by lia. rewrite Z.mod_mod by lia.
   rewrite (wrapU_small 64 (p4_byte h L probe - 128)) by (change (2 ^ 64) with 18446744073709551616; lia).
   pose proof (fun n => p4_byte_bits h L probe n ltac:(lia) (conj Hp Hlt)) as Hbb.
